@@ -38,6 +38,13 @@ package openapi
 //@ extern (github.com/jsightapi/jsight-api-core/catalog/ser/openapi.schemaObject).SetDescription(o, d)
 //@   attr nopanic
 
+// Repeatability (C16). The schema objects of the dependency are built anew by every call (read: rsoac.New / jsoac.NewFromASTNode
+// allocate), so setting a description on them does not touch the catalog. Assumptions about jsight-schema-core, not decided here.
+//@ extern (github.com/jsightapi/jsight-api-core/catalog/ser/openapi.schemaInfo).SchemaObject(i)
+//@   attr nopanic fresh
+//@ extern (github.com/jsightapi/jsight-schema-core/openapi.PropertyInformer).SchemaObject(i)
+//@   attr nopanic fresh
+
 //@ func schemaObjectFromExchangeSchema(es)
 //@   property C17
 //@   requires[C17] esOK(es)
